@@ -28,7 +28,8 @@ ProjOK(r, s) ==
   /\ (Has(r, "cells") => Chk("B:matrix", ToSet(r.cells) = BitMatrix(s)))
 
 RECURSIVE FeedAll(_, _, _, _)
-FeedAll(s, rows, cols, k) == IF k > Len(rows) THEN s ELSE FeedAll(Upd(s, Cell(rows[k], cols[k])), rows, cols, k + 1)
+FeedAll(s, rows, cols, k) == IF k > Len(rows) \/ s.C < 0 THEN s   \* s.C < 0 never holds: forces evaluation level by level
+                             ELSE FeedAll(Upd(s, Cell(rows[k], cols[k])), rows, cols, k + 1)
 
 BBegin == IsEvent("Begin") /\ d' = <<>> /\ du' = <<>> /\ dimg' = <<>>
 BNew == IsEvent("New") /\ LET e == Log[l] IN d' = (e.id :> Fresh(e.lgk)) @@ d /\ UNCHANGED <<du, dimg>>
